@@ -201,6 +201,11 @@ class FormatterFactory:
             # since those aren't allowed when formatting with a mapping.
             #
             raise ValueError('%s formats cannot use positional placeholders')
+        # Build the formatter once now: the factory may refuse a format
+        # the trial formatting lets through (logging.Formatter validates
+        # that the format refers to at least one field), and that must
+        # be reported while loading, not when the handler is created.
+        self()
 
     def __call__(self):
         #
